@@ -13,6 +13,7 @@ struct Ctx {
     w: World,
     ops: Address,
     probe: Address,
+    probe2: Address,
     p: Vec<Address>,
 }
 
@@ -39,7 +40,9 @@ enum Act {
     AddOp { acct: usize, by: usize },
     RemoveOp { acct: usize, by: usize },
     TransferOwnership { to: usize, by: usize },
-    /// auth: 0 = the caller itself, 1 = the stranger, 2 = nobody, 3 = the owner
+    /// auth: 0 = the caller itself, 1 = the stranger, 2 = nobody, 3 = the owner,
+    /// 4 = the caller, but for a different forwarded function with the same arguments,
+    /// 5 = the caller, but for a different target contract
     Execute { caller: usize, auth: u8, target: Target },
 }
 
@@ -74,7 +77,8 @@ impl Scenario for C17 {
         let p: Vec<Address> = (0..6).map(|_| env.register(Principal, ())).collect();
         let ops = env.register(axelar_operators::AxelarOperators, (p[3].clone(),));
         let probe = env.register(Probe, ());
-        (Ctx { w, ops, probe, p }, Model { members: [false; 2], owner: 3, count: 0 })
+        let probe2 = env.register(Probe, ());
+        (Ctx { w, ops, probe, probe2, p }, Model { members: [false; 2], owner: 3, count: 0 })
     }
 
     fn actions(&self, _ctx: &Ctx, m: &Model) -> Vec<Act> {
@@ -99,8 +103,9 @@ impl Scenario for C17 {
             for t in &targets {
                 v.push(Act::Execute { caller, auth: 0, target: *t });
             }
-            for auth in 1..4u8 {
+            for auth in 1..6u8 {
                 v.push(Act::Execute { caller, auth, target: Target::Add });
+                if auth >= 4 { continue; }
                 if m.count < 2 {
                     v.push(Act::Execute { caller, auth, target: Target::Record });
                 }
@@ -167,16 +172,23 @@ impl Scenario for C17 {
                 };
                 let argv: soroban_sdk::Vec<Val> = soroban_sdk::Vec::from_slice(env, &args);
                 let signers: Vec<Address> = match auth {
-                    0 => vec![p[*caller].clone()],
+                    0 | 4 | 5 => vec![p[*caller].clone()],
                     1 => vec![p[5].clone()],
                     2 => vec![],
                     _ => vec![p[m.owner].clone()],
                 };
+                let call_args = [p[*caller].to_val(), ctx.probe.to_val(), Symbol::new(env, func).to_val(), argv.to_val()];
+                let other_fn = [p[*caller].to_val(), ctx.probe.to_val(), Symbol::new(env, "sub").to_val(), argv.to_val()];
+                let other_target = [p[*caller].to_val(), ctx.probe2.to_val(), Symbol::new(env, func).to_val(), argv.to_val()];
                 let call = w.call(
                     &ctx.ops,
                     "execute",
-                    &[p[*caller].to_val(), ctx.probe.to_val(), Symbol::new(env, func).to_val(), argv.to_val()],
-                    Auth::By(&signers),
+                    &call_args,
+                    match auth {
+                        4 => Auth::ForOtherCall(&signers, &ctx.ops, "execute", &other_fn),
+                        5 => Auth::ForOtherCall(&signers, &ctx.ops, "execute", &other_target),
+                        _ => Auth::By(&signers),
+                    },
                 );
                 let member = *caller < 2 && m.members[*caller];
                 let want = member && *auth == 0 && target_ok;
@@ -227,7 +239,7 @@ fn main() {
     main_for(|tier| {
         let mut o = Opts::new(tier, if tier == "thorough" { 12 } else { 8 });
         o.min_depth = 4;
-        o.rule = "all sequences over add/remove operator X, Y by {owner O, other owner N, stranger}, ownership transfers O<->N (and by non-owners, to self), execute by caller X/Y/Z authorised by {itself, a stranger, nobody, the owner} forwarding to a probe contract: echo of 8 values of different types, add(2,3), record(7,tag) (writes + emits, bounded to 2), a target returning an error, a panicking target, a missing function, wrong arity; explored to fixpoint; is_operator for all six accounts, owner() and the probe's delivery count compared after every new state".into();
+        o.rule = "all sequences over add/remove operator X, Y by {owner O, other owner N, stranger}, ownership transfers O<->N (and by non-owners, to self), execute by caller X/Y/Z authorised by {itself, a stranger, nobody, the owner, itself but for another forwarded function with the same arguments, itself but for another target contract} forwarding to a probe contract: echo of 8 values of different types, add(2,3), record(7,tag) (writes + emits, bounded to 2), a target returning an error, a panicking target, a missing function, wrong arity; explored to fixpoint; is_operator for all six accounts, owner() and the probe's delivery count compared after every new state".into();
         (C17, o)
     });
 }
